@@ -67,6 +67,14 @@ pub struct C04Case {
     pub edge_oriented: bool,
     pub o: usize,
     pub d: Option<usize>,
+    /// build the frontier service through the application's builders from configuration JSON and
+    /// input files (road class file, restriction CSV, turn CSV) instead of in memory
+    #[serde(default)]
+    pub via_files: bool,
+    /// (with `via_files`, inside `combined`) spread the restriction rows / the turn pairs over
+    /// two models of the same type with one input file each
+    #[serde(default)]
+    pub split: bool,
 }
 
 pub struct C04;
@@ -157,7 +165,97 @@ impl C04Case {
     fn turn_restricted(&self, p: usize, e: usize) -> bool {
         self.turns.contains(&(p, e))
     }
+    /// the configuration-and-files route: CompassAppBuilder::build_frontier_model_service
+    fn build_service_from_files(&self, dir: &crate::engine::CaseDir) -> Result<Option<Arc<dyn FrontierModelService>>, String> {
+        use crate::appbuild::write_text;
+        let mut models: Vec<Value> = vec![];
+        let path = |name: &str| dir.file(name).to_string_lossy().to_string();
+        if let Some(c) = &self.classes {
+            let text: String = c.per_edge.iter().map(|k| format!("{}\n", k)).collect();
+            write_text(&dir.file("classes.txt"), &text, false).map_err(|e| e.to_string())?;
+            let mut m = serde_json::Map::new();
+            m.insert("type".into(), json!("road_class"));
+            m.insert("road_class_input_file".into(), json!(path("classes.txt")));
+            if c.by_name {
+                let mapping: HashMap<String, u8> = (0..6u8).map(|k| (CLASS_NAMES[k as usize].to_string(), k)).collect();
+                m.insert("road_class_parser".into(), json!({"mapping": mapping}));
+            }
+            models.push(Value::Object(m));
+        }
+        if let Some((rows, v)) = &self.rows {
+            let line = |r: &RowSpec| {
+                let is_w = r.kind <= 1;
+                format!(
+                    "{},{},{},{}\n",
+                    r.edge,
+                    KIND_NAMES[r.kind as usize % 6],
+                    row_value(v, r),
+                    if is_w { WEIGHT_NAMES[r.unit as usize % 3] } else { DIST_NAMES[r.unit as usize % 5] }
+                )
+            };
+            let header = "edge_id,restriction_name,restriction_value,restriction_unit\n";
+            let parts: Vec<&[RowSpec]> = if self.split && rows.len() >= 2 {
+                let (a, b) = rows.split_at(rows.len() / 2);
+                vec![a, b]
+            } else {
+                vec![&rows[..]]
+            };
+            for (i, part) in parts.iter().enumerate() {
+                let name = format!("restrictions-{}.csv", i);
+                let text: String = std::iter::once(header.to_string()).chain(part.iter().map(line)).collect();
+                write_text(&dir.file(&name), &text, false).map_err(|e| e.to_string())?;
+                models.push(json!({"type": "vehicle_restriction", "vehicle_restriction_input_file": path(&name)}));
+            }
+        }
+        if !self.turns.is_empty() {
+            let parts: Vec<&[(usize, usize)]> = if self.split && self.turns.len() >= 2 {
+                let (a, b) = self.turns.split_at(self.turns.len() / 2);
+                vec![a, b]
+            } else {
+                vec![&self.turns[..]]
+            };
+            for (i, part) in parts.iter().enumerate() {
+                let name = format!("turns-{}.csv", i);
+                let text: String = std::iter::once("prev_edge_id,next_edge_id\n".to_string())
+                    .chain(part.iter().map(|(a, b)| format!("{},{}\n", a, b)))
+                    .collect();
+                write_text(&dir.file(&name), &text, false).map_err(|e| e.to_string())?;
+                models.push(json!({"type": "turn_restriction", "turn_restriction_input_file": path(&name)}));
+            }
+        }
+        if models.is_empty() {
+            return Ok(None);
+        }
+        let cfg = if models.len() == 1 && !self.force_combined {
+            models.remove(0)
+        } else {
+            json!({"type": "combined", "models": models})
+        };
+        thread_local! {
+            static BUILDER: routee_compass::app::compass::config::compass_app_builder::CompassAppBuilder =
+                routee_compass::app::compass::config::compass_app_builder::CompassAppBuilder::default();
+        }
+        BUILDER.with(|builder| {
+            builder
+                .build_frontier_model_service(&cfg)
+                .map(Some)
+                .map_err(|e| format!("{} (configuration {})", e, cfg))
+        })
+    }
     fn build_frontier(&self, state_model: Arc<routee_compass_core::model::state::state_model::StateModel>) -> Result<Arc<dyn FrontierModel>, String> {
+        if self.via_files {
+            let dir = crate::engine::CaseDir::new();
+            let q = self.query();
+            let model: Arc<dyn FrontierModel> = match self.build_service_from_files(&dir)? {
+                Some(svc) => svc.build(&q, state_model).map_err(|e| e.to_string())?,
+                None => Arc::new(routee_compass_core::model::frontier::default::no_restriction::NoRestriction {}),
+            };
+            return if self.cut.is_empty() {
+                Ok(model)
+            } else {
+                Ok(Arc::new(EdgeCutFrontierModel::new(model, self.cut.iter().map(|e| EdgeId(*e)).collect())))
+            };
+        }
         let mut services: Vec<Arc<dyn FrontierModelService>> = vec![];
         if let Some(c) = &self.classes {
             let mapping: HashMap<String, u8> = (0..6u8).map(|k| (CLASS_NAMES[k as usize].to_string(), k)).collect();
@@ -279,7 +377,7 @@ impl Prop for C04 {
         "C04"
     }
     fn rule(&self) -> String {
-        "generated: network x road-class table with per-query allowed set (numbers or mapped names) x vehicle-restriction rows (6 kinds, 5 distance / 3 weight units, built through the CSV row parser, values pushed >= 1 % away from the vehicle's value) with vehicle parameters in other units x restricted-turn pairs x any combination through the combined model x optional cut edges (EdgeCutFrontierModel) x all algorithms x vertex/edge orientation x optional destination; the real application-level frontier models are built in memory from their services. Oracle: independent allowed(edge) predicate with SI unit factors on every route edge and tree branch, and the restricted-pair list on every consecutive route pair. non-trivial = the unrestricted search's route uses a forbidden edge or turn (the restriction changed the answer)".to_string()
+        "generated: network x road-class table with per-query allowed set (numbers or mapped names) x vehicle-restriction rows (6 kinds, 5 distance / 3 weight units, built through the CSV row parser, values pushed >= 1 % away from the vehicle's value) with vehicle parameters in other units x restricted-turn pairs x any combination through the combined model x optional cut edges (EdgeCutFrontierModel) x all algorithms x vertex/edge orientation x optional destination; the real application-level frontier models are built either through the application's builders from configuration JSON and generated input files (class file, restriction CSV with repeated rows per edge and kind, turn CSV; same-type models split over two files inside combined) or in memory from their services. Oracle: independent allowed(edge) predicate with SI unit factors on every route edge and tree branch, and the restricted-pair list on every consecutive route pair. non-trivial = the unrestricted search's route uses a forbidden edge or turn (the restriction changed the answer)".to_string()
     }
     fn cases(&self, tier: Tier) -> u32 {
         tier.pick(50_000, 2_000_000)
@@ -297,7 +395,7 @@ impl Prop for C04 {
                 let m = net.m().max(1);
                 let classes = (
                     proptest::collection::vec(0u8..6, m),
-                    proptest::collection::vec(0u8..6, 1..6),
+                    prop_oneof![1 => Just(vec![]), 12 => proptest::collection::vec(0u8..6, 1..6)],
                     any::<bool>(),
                 )
                     .prop_map(|(per_edge, allowed, by_name)| ClassSpec {
@@ -320,16 +418,38 @@ impl Prop for C04 {
                 (
                     Just(net),
                     proptest::option::weighted(0.5, classes),
-                    proptest::option::weighted(0.5, (proptest::collection::vec(row, 0..8), vehicle_strategy())),
+                    proptest::option::weighted(
+                        0.5,
+                        (
+                            proptest::collection::vec(row, 0..8),
+                            vehicle_strategy(),
+                            // a second row of the same kind on the same edge, placed before or after
+                            proptest::option::weighted(0.4, (any::<u16>(), prop_oneof![(0.5f64..0.99), (1.01f64..2.0)], 0u8..5, any::<bool>())),
+                        )
+                            .prop_map(|(mut rows, v, dup)| {
+                                if let (Some((i, ratio, unit, before)), false) = (dup, rows.is_empty()) {
+                                    let i = pick_idx(i, rows.len());
+                                    let mut r = rows[i].clone();
+                                    r.ratio = (ratio * 1000.0).round() / 1000.0;
+                                    r.unit = unit;
+                                    if before {
+                                        rows.insert(i, r);
+                                    } else {
+                                        rows.push(r);
+                                    }
+                                }
+                                (rows, v)
+                            }),
+                    ),
                     prop_oneof![1 => Just(vec![]), 1 => restricted_turns_strategy(m)],
                     any::<bool>(),
                     prop_oneof![3 => Just(vec![]), 1 => proptest::collection::vec(any::<u16>(), 1..4).prop_map(move |v| v.into_iter().map(|e| pick_idx(e, m)).collect())],
                     any_alg(),
-                    (any::<bool>(), any::<u16>(), any::<u16>(), proptest::bool::weighted(0.85)),
+                    (any::<bool>(), any::<u16>(), any::<u16>(), proptest::bool::weighted(0.85), proptest::bool::weighted(0.15), any::<bool>()),
                 )
             })
             .prop_map(|(net, classes, rows, turns, force_combined, cut, alg, misc)| {
-                let (edge_o, a, b, with_dest) = misc;
+                let (edge_o, a, b, with_dest, via_files, split) = misc;
                 let n = net.n();
                 let m = net.m();
                 let edge_oriented = edge_o && m >= 2;
@@ -351,6 +471,8 @@ impl Prop for C04 {
                     edge_oriented,
                     o,
                     d,
+                    via_files,
+                    split,
                 }
             })
             .boxed()
@@ -367,6 +489,9 @@ impl Prop for C04 {
         o.label_if(case.rows.is_some(), "vehicle-restrictions");
         o.label_if(!case.turns.is_empty(), "turn-restrictions");
         o.label_if(!case.cut.is_empty(), "cut-edges");
+        o.label_if(case.via_files, "built-from-configuration-and-files");
+        o.label_if(case.via_files && case.split, "same-type-models-split-over-two-files");
+        o.label_if(case.classes.as_ref().map(|c| c.allowed.is_empty()).unwrap_or(false), "empty-allowed-class-set");
         let n_models = case.classes.is_some() as usize + case.rows.is_some() as usize + (!case.turns.is_empty()) as usize;
         o.label_if(n_models >= 2 || (n_models == 1 && case.force_combined), "combined");
         if let Some((rows, _)) = &case.rows {
